@@ -7,6 +7,7 @@ import copy
 import itertools
 import json
 import random
+import os
 import tempfile
 import shutil
 from pathlib import Path
@@ -1169,6 +1170,35 @@ def c16_loop_and_json(res, seed, tier):
             sc = scen.gen_scenario(s, rng.choice(["shocked", "crash"]), T=rng.choice([6, 10]), max_occ=3)
         if known.match_scenario("C16", sc):
             continue
+        # an output directory given relative to the working directory, which changes between construction and the run: records
+        # and JSON artefacts stay together, where the simulation says they are
+        if i % 3 == 0:
+            cwd0 = os.getcwd()
+            dA, dB = tempfile.mkdtemp(prefix="verif_c16a_"), tempfile.mkdtemp(prefix="verif_c16b_")
+            try:
+                os.chdir(dA)
+                simR = Simulation(scen.build_model(sc["table"], sc["model"]), n_temporal_units_to_sim=min(sc["T"], 4 * int(sc["model"]["dt"])),
+                                  save_records=["production_realised"], save_params=True, save_index=True, boario_output_dir="out")
+                os.chdir(dB)
+                quiet_loop(simR)
+                os.chdir(cwd0)
+                recf = Path(simR.records_storage) / "production_realised"
+                if not Path(simR.records_storage).is_absolute():
+                    recf = Path(dB) / recf          # (what a reader in the current directory of the run would open)
+                here = [p_ for p_ in Path(dB).rglob("*") if p_.is_file()]
+                if here:
+                    viol(res, "C16", f"relative output directory: files written under the directory of the run instead of beside the records: {[p_.name for p_ in here][:4]}")
+                jj = list(Path(dA).rglob("simulated_params.json"))
+                rr = list(Path(dA).rglob("production_realised"))
+                if not jj or not rr or jj[0].parent.parent != rr[0].parent.parent:
+                    viol(res, "C16", "relative output directory: the JSON artefacts are not beside the records they describe",
+                         jsons=[str(x) for x in jj][:2], records=[str(x) for x in rr][:2])
+            except Exception as e:
+                viol(res, "C16", f"relative output directory with a change of working directory fails: {type(e).__name__}: {str(e)[:120]}")
+            finally:
+                os.chdir(cwd0)
+                shutil.rmtree(dA, ignore_errors=True)
+                shutil.rmtree(dB, ignore_errors=True)
         # a run that only asks for the parameters file (no record, no events file): the artefact is written
         od_p = tempfile.mkdtemp(prefix="verif_c16p_")
         try:
